@@ -231,12 +231,14 @@ def register(PROPS, COMPONENTS):
                    "atomics, shim + scheduler + driver glue, std::future / packaged_task. The 'next call drains' clause is proved for a "
                    "thread running alone from a quiescent state (see partial).",
         trusted_base=DF_TRUST, assumptions=DF_ASSUME,
-        partial=["'the next lock_shared or modify call applies all of them before granting access' is proved for the next caller "
-                 "running alone from a quiescent state (C06_no_stranding_next, under no-spurious-try_lock-failure); for modify_* the "
-                 "general concurrent statement is C06_order (all tasks returned before the call are applied before its own). With "
-                 "other shared acquisitions already in flight the literal claim is false for the code: a lock_shared that loaded "
-                 "flag=false before the submission, or whose try_lock lost against a concurrent reader, is granted without draining "
-                 "(best-effort drain; the task is applied by the next successful drain) — not claimed",
+        partial=["'the next lock_shared or modify call applies all of them before granting access' is proved from a QUIESCENT state (no "
+                 "call in flight, no handle held), under no-spurious-try_lock-failure: for any number of concurrent next callers in any "
+                 "interleaving nobody is granted shared access or enters its own function before every earlier task is applied "
+                 "(C06_no_stranding_next_concurrent), and for a caller running alone queue and batch are then empty and all outcomes "
+                 "recorded (C06_no_stranding_next). With a lock_shared already IN FLIGHT when the submitters return the literal claim "
+                 "is false for the code (C06_no_stranding_inflight_caveat: it loaded flag=false before the submission, is granted "
+                 "without draining, and makes the try_lock of the next caller fail) — best-effort drain, the task is applied by the "
+                 "next successful drain; not claimed",
                  "'executed exactly once': at-most-once and conservation are theorems for every reachable state; 'at least once' is "
                  "the no-stranding safety statement (a liveness claim would need the client to call again)"],
     )
